@@ -1,14 +1,20 @@
 #!/bin/sh
-# Regenerates harness/go.mod + go.sum from /repo (replace blocks are not inherited).
+# usage: mkmod.sh <out.mod>   (go.sum is written next to it as <out>.sum)
+# Writes the harness module file for `go build -modfile=<out.mod>`: our own header plus a
+# verbatim copy of /repo's replace and require blocks (replacements are not inherited), and
+# /repo's go.sum. REPO = $VERIF_REPO or /repo.
 set -e
 cd "$(dirname "$0")"
 REPO=${VERIF_REPO:-/repo}
+OUT=${1:-go.mod}
+mkdir -p "$(dirname "$OUT")"
 {
   sed "s#=> /repo#=> $REPO#" go.mod.tmpl
   awk '/^replace \(/{p=1} p{print} p&&/^\)/{exit}' "$REPO/go.mod"
   echo
   awk '/^require \(/{p=1} p{print} p&&/^\)/{p=0}' "$REPO/go.mod"
-} > go.mod.new
-cmp -s go.mod.new go.mod || mv go.mod.new go.mod
-rm -f go.mod.new
-cmp -s "$REPO/go.sum" go.sum || cp "$REPO/go.sum" go.sum
+} > "$OUT.new"
+cmp -s "$OUT.new" "$OUT" || mv "$OUT.new" "$OUT"
+rm -f "$OUT.new"
+SUM="${OUT%.mod}.sum"
+cmp -s "$REPO/go.sum" "$SUM" || cp "$REPO/go.sum" "$SUM"
